@@ -138,6 +138,8 @@ class World(object):
         self.seq = 0
         self.requests = 0
         self.restarts = 0
+        self.escapes = []
+        self.last_escape = None
         self.start_engine()
 
     # ------------------------------------------------------------------
@@ -207,7 +209,15 @@ class World(object):
         frames the session sent."""
         s, conn = self.session(ai)
         conn.feed(frame, chunks)
-        s._handle_message_loop()
+        self.last_escape = None
+        try:
+            s._handle_message_loop()
+        except Exception as e:
+            # KmipSession.run() catches whatever leaves the message loop,
+            # logs it and carries on; the simulator records it.
+            self.last_escape = '%s: %s' % (type(e).__name__, e)
+            self.escapes.append(self.last_escape)
+            self.event('escape', actor=ai, error=self.last_escape)
         return conn.take_sent()
 
     def request(self, req, record=True):
@@ -219,7 +229,8 @@ class World(object):
         sent = self.send_raw(ai, frame, req.get('chunks'))
         t_out = self.clock.now
         info = {'actor': ai, 'req': req, 'frame': frame, 'sent': sent,
-                't_in': t_in, 't_out': t_out, 'resp': None}
+                't_in': t_in, 't_out': t_out, 'resp': None,
+                'escape': self.last_escape}
         if len(sent) == 1:
             try:
                 info['resp'] = reqs.Response(sent[0])
@@ -268,7 +279,7 @@ class World(object):
 
 
 def dump_db(path):
-    con = sqlite3.connect('file:%s?mode=ro' % path, uri=True)
+    con = sqlite3.connect(path, timeout=0.5)
     try:
         cur = con.cursor()
         tables = [r[0] for r in cur.execute(
